@@ -50,6 +50,8 @@ def check_decision(model, rep):
     dec = deciders[0]
     ir.install_subscript()
     sx = ir.sx
+    # the powertrain's self-locking property is ONE boolean here, however its getter computes it (its meaning is C20's / flag-source)
+    sx.opaque_calls |= {'Powertrain.self_locking'}
     outs = sx.run(dec.node, dec.module, 'Solver')
     rep.inspect(len(outs))
     lock_paths, unlock_paths = [], []
